@@ -248,16 +248,71 @@ def acqClosed (t : Table) (direct trans : List (Nat × List Lock)) : Bool :=
   direct.all (fun p => p.2.all fun l => (acqOf trans p.1).contains l) &&
   t.sites.all (fun c => (acqOf trans c.callee).all fun l => (acqOf trans c.caller).contains l)
 
-/-- no call is made while holding lock `l` (shared or exclusive) to a function that acquires `l` again, and no function
-    re-acquires a lock it holds (`self`): sync.Mutex is not reentrant, and a second RLock deadlocks once a writer is queued -/
-def noReentrant (t : Table) (trans : List (Nat × List Lock)) (self : List CallSite) : Bool :=
-  (t.sites ++ self).all fun c =>
-    (total t c.caller c.held).all fun h => !(acqOf trans c.callee).contains h.1
+/-- function `fn` acquires `lock` while holding `held` (locally; plus the entry set of `fn`) -/
+structure AcqEvent where
+  fn : Nat
+  lock : Lock
+  held : Held
+  pos : String
+  deriving Repr
 
-/-- the re-entrant call sites (for the driver / reports) -/
-def reentrantSites (t : Table) (trans : List (Nat × List Lock)) (self : List CallSite) : List (Lock × Nat × Nat) :=
-  (t.sites ++ self).flatMap fun c =>
-    ((total t c.caller c.held).filter fun h => (acqOf trans c.callee).contains h.1).map fun h => (h.1, c.caller, c.callee)
+/-- allocation site of the hashed mutex table a keyed lock belongs to (`none`: an ordinary mutex) -/
+def poolOf (pools : List (Lock × Nat)) (l : Lock) : Option Nat := pools.lookup l
+
+/-- may `a` and `b` be the SAME mutex?  the same lock — or two keyed locks of one hashed table
+    (`keymutex.NewHashed(n)`: key ↦ mutexes[hash(key) % n], two keys may collide) -/
+def sameMutex (pools : List (Lock × Nat)) (a b : Lock) : Bool :=
+  a == b || (match poolOf pools a, poolOf pools b with
+    | some x, some y => x == y
+    | _, _ => false)
+
+/-- no call is made while holding a lock (shared or exclusive, locally or by the caller-holds contract) to a function
+    that acquires a possibly-identical mutex, and no function acquires one while holding it: sync.Mutex is not reentrant,
+    and a second RLock deadlocks once a writer is queued -/
+def noReentrant (t : Table) (trans : List (Nat × List Lock)) (events : List AcqEvent) (pools : List (Lock × Nat)) : Bool :=
+  (t.sites.all fun c =>
+    (total t c.caller c.held).all fun h => !(acqOf trans c.callee).any (sameMutex pools h.1)) &&
+  (events.all fun e => (total t e.fn e.held).all fun h => !sameMutex pools h.1 e.lock)
+
+/-- the re-entrant acquisitions (for the driver / reports): (held lock, caller, callee) -/
+def reentrantSites (t : Table) (trans : List (Nat × List Lock)) (events : List AcqEvent) (pools : List (Lock × Nat)) :
+    List (Lock × Nat × Nat) :=
+  (t.sites.flatMap fun c =>
+    ((total t c.caller c.held).filter fun h => (acqOf trans c.callee).any (sameMutex pools h.1)).map fun h => (h.1, c.caller, c.callee)) ++
+  (events.flatMap fun e =>
+    ((total t e.fn e.held).filter fun h => sameMutex pools h.1 e.lock).map fun h => (h.1, e.fn, e.fn))
+
+/-- keyed-lock nestings: function, outer keyed lock (held), inner keyed lock (acquired directly or by a callee) -/
+def keyedNestings (t : Table) (trans : List (Nat × List Lock)) (events : List AcqEvent) (pools : List (Lock × Nat)) :
+    List (Nat × Lock × Lock) :=
+  let keyed (l : Lock) : Bool := (poolOf pools l).isSome
+  (events.flatMap fun e =>
+    if keyed e.lock then ((total t e.fn e.held).filter fun h => keyed h.1).map fun h => (e.fn, h.1, e.lock) else []) ++
+  (t.sites.flatMap fun c =>
+    ((total t c.caller c.held).filter fun h => keyed h.1).flatMap fun h =>
+      ((acqOf trans c.callee).filter keyed).map fun l => (c.caller, h.1, l))
+
+/-- every nesting takes the inner lock from a DIFFERENT table than the outer one -/
+def nestingsDistinctPools (pools : List (Lock × Nat)) (ns : List (Nat × Lock × Lock)) : Bool :=
+  ns.all fun n => poolOf pools n.2.1 != poolOf pools n.2.2
+
+/-- the order between tables induced by the nestings: (outer table, inner table) -/
+def poolOrder (pools : List (Lock × Nat)) (ns : List (Nat × Lock × Lock)) : List (Nat × Nat) :=
+  (ns.filterMap fun n =>
+    match poolOf pools n.2.1, poolOf pools n.2.2 with
+    | some a, some b => some (a, b)
+    | _, _ => none).eraseDups
+
+/-- one round of transitive closure -/
+def composeEdges (es : List (Nat × Nat)) : List (Nat × Nat) :=
+  (es ++ es.flatMap fun e => (es.filter fun f => f.1 == e.2).map fun f => (e.1, f.2)).eraseDups
+
+def closeEdges : Nat → List (Nat × Nat) → List (Nat × Nat)
+  | 0, es => es
+  | n + 1, es => closeEdges n (composeEdges es)
+
+/-- the order is acyclic: its transitive closure (|edges| rounds suffice) has no edge (a, a) -/
+def acyclic (es : List (Nat × Nat)) : Bool := (closeEdges es.length es).all fun e => e.1 != e.2
 
 /-! ### writer preference (sync.RWMutex): a pending `Lock` blocks new `RLock`s -/
 
